@@ -48,7 +48,7 @@ func faultList(thorough bool, rng *vsup.Rng) []fault {
 	}
 	add("read", "ECONNRESET", true, ks, both)
 	add("read", "ETIMEDOUT", true, ks[:1], both)
-	add("write", "EPIPE", true, ks, both)
+	// (write / EPIPE is enumerated adaptively by TestVerifFaults)
 	add("write", "ECONNRESET", true, ks[:1], both)
 	add("writev", "EPIPE", true, ks[:1], both)
 	// (epoll_ctl faults are enumerated adaptively by TestVerifFaults: until ADD, MOD and DEL have each been hit)
@@ -154,6 +154,7 @@ func runFaultScenario(t *testing.T, rec *recorder, f fault, seed uint64, scratch
 		<-runErr
 		return false, nil
 	}
+	rec.errSites.Range(func(k, _ any) bool { rec.errSites.Delete(k); return true })
 	rec.emit("FaultArmed", "syscall", f.syscall, "errno", f.errno, "when", f.when, "hard", f.hard)
 	if f.fatal {
 		// from here on the engine may start shutting down by itself at any moment
@@ -169,6 +170,9 @@ func runFaultScenario(t *testing.T, rec *recorder, f fault, seed uint64, scratch
 		if sp.total > 70000 {
 			sp.total = 5000
 			sp.segs = segPlan(sp.total, rng, cfg.readCap)
+		}
+		if i == 2 && f.syscall == "write" {
+			sp.openOut = 10 // an OnOpen reply: conn.open's write is one of the calls the fault can hit
 		}
 		if i == 1 && f.syscall == "epoll_ctl" {
 			// a peer that reads late while the handler answers with more than the socket buffers take: the calls that
@@ -304,6 +308,21 @@ func TestVerifFaults(t *testing.T) {
 			t.Fatal(err)
 		}
 		return
+	}
+	// write: the call index is raised until a write made by Conn.Write and one made for an OnOpen reply have each been
+	// failed (strace can only count calls; where the fault landed is read from the hooks)
+	for _, et := range []bool{false, true} {
+		want := map[string]bool{"c.write/EPIPE": true, "c.openwrite/EPIPE": true}
+		for k := 1; k <= 8 && len(want) > 0; k++ {
+			if ok, _ := runFaultScenario(t, rec, fault{"write", "EPIPE", k, et, true, false}, rng.Uint64(), scratch, rep); ok {
+				armed++
+			}
+			for site := range want {
+				if _, hit := rec.errSites.Load(site); hit {
+					delete(want, site)
+				}
+			}
+		}
 	}
 	// epoll_ctl: strace can only count calls, so the call index is raised until a registration (ADD), a change of
 	// interest (MOD, level-triggered mode only) and a removal (DEL) have each been failed at least once
